@@ -311,8 +311,26 @@ pub fn gen_files(s: &mut Src) -> Result<(Vec<(String, String)>, bool), Fail> {
     }
     // sometimes a file without a tree
     if s.chance(1, 4) {
-        let toks = mutate::token_soup(s, 12);
-        files.push(("broken".to_owned(), toks.join(" ")));
+        if s.flip() {
+            let toks = mutate::token_soup(s, 12);
+            files.push(("broken".to_owned(), toks.join(" ")));
+        } else {
+            // an item body with recovered member errors that is never closed: several syntax
+            // diagnostics, no tree (so validation does not touch the list)
+            let mut t = String::from("package p;\nimport p.U0; import p.U1;\ninterface I {\n");
+            let n = s.range(1, 5);
+            for i in 0..n {
+                t.push_str(*s.pick(&[" int bad;", " void f(];", " void g() = 99999999999;", " const ;", " void ok();", " = 3;"]));
+                if s.flip() {
+                    t.push('\n');
+                }
+                let _ = i;
+            }
+            if s.flip() {
+                t.push_str(" void last(");
+            }
+            files.push(("broken".to_owned(), t));
+        }
     }
     Ok((files, special))
 }
